@@ -155,6 +155,7 @@ theorem runBody_pi (U : Universe) {s : St} (P : PI s) (g : Gen) : PI (runBody U 
       split
       · exact push_pi P1 _ rfl
       · exact P1.weaken (fun _ _ h => h) rfl rfl (.inr ⟨.returned g _, rfl, rfl⟩)
+      · exact P1.weaken (fun _ _ h => h) rfl rfl (.inr ⟨.crashed g _, rfl, rfl⟩)
 
 theorem finishHead_pi {s : St} (P : PI s) {g : Gen} {p : Nat} (v : Option Int)
     (hp : s.promises g = some p) : PI (finishHead s g p v) := by
@@ -200,6 +201,7 @@ theorem afterBody_pi {b : St × Next} (P : PI b.1) (g : Gen) {p : Nat} (hp : b.1
   · split
     · exact P.weaken (fun _ _ h => h) rfl rfl (.inl rfl)
     · exact P.weaken (fun _ _ h => h) rfl rfl (.inl rfl)
+  · exact P
 
 theorem dropHead_pi {s : St} (P : PI s) (g : Gen) : PI (dropHead s g) :=
   P.weaken (fun x q hx => by
@@ -208,7 +210,7 @@ theorem dropHead_pi {s : St} (P : PI s) (g : Gen) : PI (dropHead s g) :=
     · simp [e] at hx
     · simpa [e] using hx) rfl rfl (.inl rfl)
 
-theorem turn_pi (U : Universe) {c : St} (I : Inv c) {g : Gen} {pend : List Gen}
+theorem turn_pi (U : Universe) [NoRaise U] {c : St} (I : Inv c) {g : Gen} {pend : List Gen}
     {done : List (Option Gen)} (h : Split c (g :: pend) done) (P : PI c) : PI (turn U c) := by
   obtain ⟨_, hc⟩ := turn_cases U I h
   rcases hc with ⟨_, ht, _⟩ | ⟨_, _, p, _, hp, _, _, ht, _⟩
@@ -257,6 +259,7 @@ theorem wakeAll_prom (s : St) (l : List Rec) :
     | raised e => exact ⟨a1, a2, a3, a4⟩
     | state c => exact ⟨a1, a2, a3, a4⟩
     | outOfFuel => exact ⟨a1, a2, a3, a4⟩
+    | crashed e => exact ⟨a1, a2, a3, a4⟩
 
 theorem wake_pi {s : St} (P : PI s) (dt : Int) (hint : List Gen) : PI (wakePhase s dt hint).1 := by
   unfold wakePhase
@@ -279,8 +282,9 @@ theorem wake_pi {s : St} (P : PI s) (dt : Int) (hint : List Gen) : PI (wakePhase
     | raised e => exact P.weaken b4 b2 b1 (.inl b3)
     | state c => exact P.weaken b4 b2 b1 (.inl b3)
     | outOfFuel => exact P.weaken b4 b2 b1 (.inl b3)
+    | crashed e => exact P.weaken b4 b2 b1 (.inl b3)
 
-theorem process_pi (U : Universe) {s : St} (T : Top s) (dt : Int) (hint : List Gen) (P : PI s) :
+theorem process_pi (U : Universe) [NoRaise U] {s : St} (T : Top s) (dt : Int) (hint : List Gen) (P : PI s) :
     PI (process U s dt hint).1 := by
   obtain ⟨pend, _, I1, hsp, hp⟩ := process_frame U T dt hint
   have P0 : PI (rotHead (wakePhase s dt hint).1) :=
@@ -291,7 +295,7 @@ theorem process_pi (U : Universe) {s : St} (T : Top s) (dt : Int) (hint : List G
   rw [hp]
   exact this P0
 
-theorem execOp_pi (U : Universe) {s : St} (T : Top s) (op : Op) (P : PI s) : PI (execOp U s op) := by
+theorem execOp_pi (U : Universe) [NoRaise U] {s : St} (T : Top s) (op : Op) (P : PI s) : PI (execOp U s op) := by
   cases op with
   | start h => exact push_pi (start_pi U P h) _ rfl
   | kill h => exact push_pi (kill_pi U P h) _ rfl
@@ -299,7 +303,7 @@ theorem execOp_pi (U : Universe) {s : St} (T : Top s) (op : Op) (P : PI s) : PI 
   | value h => exact push_pi P _ rfl
   | process dt hint => exact push_pi (process_pi U T dt hint P) _ rfl
 
-theorem run_pi (U : Universe) {s : St} (T : Top s) (ops : List Op) (P : PI s) : PI (run U s ops) := by
+theorem run_pi (U : Universe) [NoRaise U] {s : St} (T : Top s) (ops : List Op) (P : PI s) : PI (run U s ops) := by
   induction ops generalizing s with
   | nil => exact P
   | cons op rest ih => exact ih (execOp_top U T op) (execOp_pi U T op P)
@@ -375,21 +379,23 @@ theorem runBody_ext (U : Universe) (s : St) (g : Gen) : LogExt s (runBody U s g)
       split
       · exact (k0.trans k1).trans (LogExt.cons _ rfl)
       · exact (k0.trans k1).trans (LogExt.cons (.returned g _) rfl)
+      · exact (k0.trans k1).trans (LogExt.cons (.crashed g _) rfl)
 
 theorem afterBody_ext (b : St × Next) (g : Gen) (p : Nat) : LogExt b.1 (afterBody b g p) := by
   unfold afterBody
   split
   · exact LogExt.cons _ rfl
   · split <;> exact ⟨[], rfl⟩
+  · exact ⟨[], rfl⟩
 
-theorem turn_ext (U : Universe) {c : St} (I : Inv c) {x : Gen} {pend : List Gen}
+theorem turn_ext (U : Universe) [NoRaise U] {c : St} (I : Inv c) {x : Gen} {pend : List Gen}
     {done : List (Option Gen)} (h : Split c (x :: pend) done) : LogExt c (turn U c) := by
   obtain ⟨_, hc⟩ := turn_cases U I h
   rcases hc with ⟨_, ht, _⟩ | ⟨_, _, p, _, _, _, _, ht, _⟩
   · rw [ht]; exact ⟨[], rfl⟩
   · rw [ht]; exact (runBody_ext U c x).trans (afterBody_ext _ x p)
 
-theorem turns_ext (U : Universe) {c : St} (I : Inv c) {before rest : List Gen}
+theorem turns_ext (U : Universe) [NoRaise U] {c : St} (I : Inv c) {before rest : List Gen}
     {done : List (Option Gen)} (h : Split c (before ++ rest) done) :
     LogExt c (turns U before.length c) :=
   (turns_rel U LogExt LogExt.refl (fun _ _ _ => LogExt.trans) (before := before)
@@ -397,7 +403,7 @@ theorem turns_ext (U : Universe) {c : St} (I : Inv c) {before rest : List Gen}
 
 /-- when a generator that runs in this frame finishes (its step ends in `ret v`, or it is
 exhausted: `v = None`), `stored g p v` is logged in this frame for some promise `p` -/
-theorem process_returns (U : Universe) {s : St} (T : Top s) (dt : Int) (hint : List Gen) {g : Gen}
+theorem process_returns (U : Universe) [NoRaise U] {s : St} (T : Top s) (dt : Int) (hint : List Gen) {g : Gen}
     {v : Option Int} (hr : runnableIn s dt g) (hk : s.kill g = false)
     (hno : ∀ h, runnableIn s dt h → ∀ st, curStep U s h = some st → Act.kill g ∉ st.acts)
     (hret : (hasCode U s g ∧ ∃ st, curStep U s g = some st ∧ st.fin = .ret v) ∨
